@@ -534,3 +534,38 @@ func TestC01_Rollover(t *testing.T) {
 	}
 	col("C01").Completed("TestC01_Rollover")
 }
+
+// TestC01_EdgeWhiteSpace: documents whose structural characters fill index buffers exactly (k x 1408 +- 3), whose length
+// sits around multiples of 64, followed and preceded by runs of 0..200 bytes of JSON white space: leading and trailing
+// white space is ignored wherever the last token falls relative to blocks and index buffers.
+func TestC01_EdgeWhiteSpace(t *testing.T) {
+	idx := 0
+	ws := []string{" ", "\n", "\t", "\r\n", " \t"}
+	for _, tok := range []string{"0,", "[],", `"s",`} {
+		per := structuralsOf(tok)
+		for _, k := range []int{1, 2} {
+			for d := -3; d <= 3; d++ {
+				n := (1408*k+d)/per - 1
+				for _, trail := range []int{0, 1, 63, 64, 65, 70, 127, 128, 129, 200} {
+					for _, lead := range []int{0, 1, 65} {
+						for pad := 0; pad < 64; pad += 7 {
+							idx++
+							if idx%envNShards != envShard {
+								continue
+							}
+							w := ws[idx%len(ws)]
+							body := "[" + strings.Repeat(tok, n) + strings.Repeat(" ", pad) + "1]"
+							in := strings.Repeat(w, lead)[:lead] + body + strings.Repeat(w, trail+1)[:trail]
+							c01Eval(t, []byte(in), "gen:edge-white-space")
+							if idx%5 == 0 {
+								// and an invalid neighbour: something other than white space after the run
+								c01Eval(t, []byte(in+"x"), "gen:edge-white-space")
+							}
+						}
+					}
+				}
+			}
+		}
+	}
+	col("C01").Completed("TestC01_EdgeWhiteSpace")
+}
